@@ -62,6 +62,13 @@ theorem parse_own_sites_never_panic (src : Str) (lookup : Env) (s : Site) (h : p
 theorem fromFiles_never_panics (cur : Env) (files : List Str) (m : Map) (s : Site) : fromFiles cur files m ≠ .panic s :=
   fromFiles_ne_panic cur files m s
 
+/-- … and neither does `ReadWithLookup` -/
+theorem readFiles_never_panics (lookup : Env) (files : List Str) (m : Map) (s : Site) : readFiles lookup files m ≠ .panic s :=
+  readFiles_ne_panic lookup files m s
+
+/-- keys that start with a digit are dropped by `ReadWithLookup` (and only by it) -/
+example : readFiles (fun _ => none) [['1', 'A', '=', 'x', '\n', 'B', '=', 'y', '\n']] [] = .ok [(['B'], ['y'])] := by decide
+
 /-! ## the parser computes the grammar's meaning -/
 
 /-- Refinement.  For EVERY list of well-formed grammar lines (blank, comment, bare key, assignment with
